@@ -32,15 +32,17 @@ OPS = {
     "multiset": ("multiset", [((1, 3, 1, 2), ("str", b"x")), ((1, 3, 2, 1), ("int", 5))]),
     "bulkget": ("bulkget", [(1, 3, 1)], [(1, 3, 1, 1)], 2),
     "walk": ("walk", (1, 3, 1)),
+    "walk-warn": ("walk", (1, 3, 1), "warn"),
     "multiwalk": ("multiwalk", [(1, 3, 1), (1, 3, 2)]),
+    "multiwalk-warn": ("multiwalk", [(1, 3, 1), (1, 3, 2)], "warn"),
     "bulkwalk": ("bulkwalk", [(1, 3, 1)], 1),
     "table": ("table", (1, 3)),
     "bulktable": ("bulktable", (1, 3), 2),
 }
 NO_V1 = ("bulkget", "bulkwalk", "bulktable")
 
-PERTURB = ("echo", "id+1", "id-1", "id0", "previd", "foreign", "id+1/genErr", "id+1/noSuchName", "wrongcomm", "emptycomm", "otherversion", "wrongcomm/noSuchName")
-V3_PERTURB = PERTURB[:8]
+PERTURB = ("echo", "id+1", "id-1", "id0", "previd", "foreign", "id+1/genErr", "id+1/noSuchName", "id+2^32", "id-2^32", "id+2^32/noSuchName", "wrongcomm", "emptycomm", "otherversion", "wrongcomm/noSuchName", "prefixcomm", "longercomm")
+V3_PERTURB = PERTURB[:11]
 
 
 def creds(version):
@@ -103,6 +105,18 @@ def make_run(opname, version):
                 resp["request_id"] = exchanges[-1]["sent_id"] if exchanges else sent_id + 7
             elif kind == "foreign":
                 resp["request_id"] = 424242
+            elif kind == "id+2^32":
+                resp["request_id"] = sent_id + 2**32
+            elif kind == "id-2^32":
+                resp["request_id"] = sent_id - 2**32
+            elif kind == "id+2^32/noSuchName":
+                resp["request_id"] = sent_id + 2**32
+                resp["es"], resp["ei"] = 2, 1
+                resp["varbinds"] = list(req["varbinds"])
+            elif kind == "prefixcomm":
+                resp["community"] = b"publi"
+            elif kind == "longercomm":
+                resp["community"] = b"public1"
             elif kind in ("id+1/genErr", "id+1/noSuchName"):
                 # an error response that answers some other request
                 resp["request_id"] = sent_id + 1
@@ -138,7 +152,7 @@ def make_run(opname, version):
         violations = []
         bad = None
         for i, ex in enumerate(exchanges):
-            if ex["kind"] in ("wrongcomm", "emptycomm", "otherversion", "wrongcomm/noSuchName"):
+            if ex["kind"] in ("wrongcomm", "emptycomm", "otherversion", "wrongcomm/noSuchName", "prefixcomm", "longercomm"):
                 bad = (i, "envelope")
                 break
             if ex["resp_id"] != ex["sent_id"]:
@@ -240,7 +254,7 @@ def replay(case):
 def meta(tier):
     return {
         "level": "model_checking",
-        "rule": "choice tree per (operation, version): free clock-advance choice after every clock read x one response perturbation per response (12 alternatives; 8 under SNMPv3 plus 4 alternatives for the message id of the discovery reply; deviation bound %d); an execution is non-trivial when at least one non-default choice was taken; every execution is a run of the real client against the reference agent"
+        "rule": "choice tree per (operation, version): free clock-advance choice after every clock read x one response perturbation per response (17 alternatives; 11 under SNMPv3 plus 4 alternatives for the message id of the discovery reply; deviation bound %d); an execution is non-trivial when at least one non-default choice was taken; every execution is a run of the real client against the reference agent"
         % (1 if tier == "quick" else 2),
         "exhaustive": True,
         "bounds": {"response_perturbations": 1 if tier == "quick" else 2, "clock_advances": "unbounded", "request_horizon": 12},
